@@ -7,4 +7,10 @@ import Qats.Props.C15
 import Qats.Props.C16
 import Qats.Props.C17
 import Qats.Props.C20
+import Qats.Props.C04
+import Qats.Props.C08
+import Qats.Props.C09
+import Qats.Props.C10
+import Qats.Props.C11
+import Qats.Props.C14
 import Qats.Driver
